@@ -505,6 +505,8 @@ def c12_cases(tier):
         "input A { x: Int b: B c: C } input B { c: C } input C { a: A b: B }",
         "input A { b: B } input B { c: C } input C { d: D } input D { b: B }",
         "input A { title: String and: [A!] or: [A!] not: A }",
+        "input A { c: C! } input C { and: B } input B { or: D } input D { and: B }",
+        "input A { c: C } input C { b: B d: D } input B { d: D } input D { b: B c: [C] }",
         "input A { bs: [B!] b: B } input B { as: [A] a: A }",
     ]
     for g in graphs:
@@ -771,6 +773,22 @@ def c01_cases(tier):
                     return "`%s` is not an alias of the fragment type `%s` (`%s`)" % (name, target, q)
             return None
         yield case, oracle
+    # an abstract position whose only `__typename` sits under one member's type condition: a conforming payload of another member type
+    # carries no discriminant, so an accepted operation yields a ResponseData that rejects it (C01); rejection of the operation is the
+    # only lossless outcome
+    for q, other in [
+        ("fragment D on Dog { __typename name } query Q { pet { ...D ... on Cat { lives } } }", '{"pet":{"lives":9}}'),
+        ("query Q { pet { ... on Dog { __typename name } ... on Cat { lives } } }", '{"pet":{"lives":9}}'),
+        ("fragment D on Dog { __typename name } query Q { names { name ...D } }", '{"names":[{"name":"Tom"}]}'),
+        ("fragment D on Dog { __typename name } fragment P on Person { best { ...D name } } query Q { me { ...P } }", '{"me":{"best":{"name":"Tom"}}}'),
+    ]:
+        case = {"schema": C01_SCHEMA, "query": q, "options": {"mode": "cli"}}
+
+        def oracle2(res, q=q, other=other):
+            if res["exit"] == 0 and res["out"] and res["out"].get("ok"):
+                return "`%s` is accepted although the conforming payload %s (a member type on which __typename is not selected) has no discriminant for the generated tagged enum" % (q, other)
+            return None
+        yield case, oracle2
 
 
 def c08_cases(tier):
@@ -900,6 +918,15 @@ def c17_all_cases(tier):
         yield x
     for x in c17_more_cases(tier):
         yield x
+    # the recursive input graphs of the C12 family: here only termination without a crash is asked
+    for case, _ in c12_cases(tier):
+        def oracle(res, case=case):
+            if res.get("timeout"):
+                return "generation does not terminate on the input graph `%s`" % case["schema"]
+            if res["exit"] not in (0, 1):
+                return "process died with exit status %s on the input graph `%s`: %s" % (res["exit"], case["schema"], (res["stderr"] or "").strip()[-160:])
+            return None
+        yield case, oracle
 
 
 def c12_all_cases(tier):
